@@ -105,8 +105,8 @@ func main() {
 		c.decodeSide(c.accepted("evolution", "evomix", "empty", "recursive", "leaf", "byvalue", "random", "wide", "spellings"), 3*n, true)
 	case "C12":
 		c.resolveAll(false)
-		c.encodeSide(c.accepted("spellings"), 2*n, false)
-		c.roundTrip(c.accepted("spellings"), n)
+		c.encodeSide(c.accepted("spellings", "anon"), 2*n, false)
+		c.roundTrip(c.accepted("spellings", "anon"), n)
 	case "C13":
 		c.cacheHistory(60 * n)
 		c.resolveAll(true)
